@@ -320,3 +320,25 @@ V('ptb-root-renamed', PTBF, "return f'(ROOT {rec(tree)})'", "return f'(TOP {rec(
 V('rd-ptb-unary-args', RD, "tree = Tree.make_unary(category, children[0])", "tree = Tree.make_unary(category, children[0], 'lex', '<un>', True)", ['C20'])
 V('rd-ptb-children-order', RD, "                right, left = children\n", "                left, right = children\n", ['C20'])
 V('jr-silent-contains-guard', JRD, "        if '_' in cat:\n            cat = cat[:cat.find('_')]", "        cut = cat.find('_')\n        if cut != -1:\n            cat = cat[:cut]", ['C20'], expect='silent')
+
+# ---------------------------------------------------------------- C07
+V('pc-heads-swapped', PC, "                if node.head_is_left:\n                    results[right_head] = left_head\n                    return left_head", "                if node.head_is_left:\n                    results[left_head] = right_head\n                    return left_head", ['C07'])
+V('pc-returns-wrong-head', PC, "                else:\n                    results[left_head] = right_head\n                    return right_head", "                else:\n                    results[left_head] = right_head\n                    return left_head", ['C07'])
+V('pc-right-first', PC, "                left_head = rec(node.left_child)\n                right_head = rec(node.right_child)", "                right_head = rec(node.right_child)\n                left_head = rec(node.left_child)", ['C07'])
+V('pc-head-column-0-based', PC, "str(dependencies[counter - 1] + 1),", "str(dependencies[counter - 1]),", ['C07'])
+V('pc-head-column-offset', PC, "str(dependencies[counter - 1] + 1),", "str(dependencies[counter] + 1),", ['C07'])
+V('pc-no-root-assert', PC, "    assert len(\n        [dependency for dependency in results if dependency == -1]\n    ) == 1\n", "", ['C07'])
+V('pa-flattened-polarity', PA, "            head_is_left = 0 if node.head_is_left else 1\n            return f'(<T *** {cat} * {head_is_left} {num_children}>\\n{children}\\n)'", "            head_is_left = 1 if node.head_is_left else 0\n            return f'(<T *** {cat} * {head_is_left} {num_children}>\\n{children}\\n)'", ['C07'])
+V('pi-number-by-tree', PI, "        for sentence_index, trees in enumerate(nbest_trees, 1):\n            for tree, log_prob in trees:\n                print(header.format(sentence_index, log_prob), file=file)\n                print(formatter(tree), file=file)",
+  "        for sentence_index, trees in enumerate(nbest_trees, 1):\n            for tree_index, (tree, log_prob) in enumerate(trees, 1):\n                print(header.format(tree_index, log_prob), file=file)\n                print(formatter(tree), file=file)", ['C07'])
+V('pi-number-from-0', PI, "        for sentence_index, trees in enumerate(nbest_trees, 1):\n            for tree, log_prob in trees:\n                print(header.format(sentence_index, log_prob), file=file)\n                print(formatter(tree), file=file)",
+  "        for sentence_index, trees in enumerate(nbest_trees):\n            for tree, log_prob in trees:\n                print(header.format(sentence_index, log_prob), file=file)\n                print(formatter(tree), file=file)", ['C07'])
+V('px-sentence-attr-tree-index', PX, "out.set('sentence', str(sentence_index))", "out.set('sentence', str(tree_index))", ['C07'])
+V('pp-prolog-first-tree-only', PP, "        for sentence_index, trees in enumerate(nbest_trees, 1):\n            for tree, _ in trees:\n                print(_prolog_string(tree, sentence_index), file=output)", "        for sentence_index, trees in enumerate(nbest_trees, 1):\n            tree, _ = trees[0]\n            print(_prolog_string(tree, sentence_index), file=output)", ['C07'])
+V('ptb-left-child-only', PTBF, "children = ' '.join(rec(child) for child in node.children)", "children = rec(node.children[0])", ['C07', 'C20'])
+V('pjson-skips-children', PJ, "'children': [rec(child) for child in node.children]", "'children': [rec(child) for child in node.children[:1]]", ['C07'])
+V('jx-right-before-left', JX, "                childid, start_of_span = traverse(node.left_child)\n                if not node.is_unary:\n                    tmp, _ = traverse(node.right_child)\n                    childid += ' ' + tmp",
+  "                if not node.is_unary:\n                    tmp, _ = traverse(node.right_child)\n                childid, start_of_span = traverse(node.left_child)\n                if not node.is_unary:\n                    childid += ' ' + tmp", ['C07'])
+V('pderiv-cat-of-child', 'depccg/printer/deriv.py', "            result = str(node.cat)\n", "            result = str(node.children[0].cat)\n", ['C07'])
+V('pi-silent-rename-index', PI, "        for sentence_index, trees in enumerate(nbest_trees, 1):\n            for tree, log_prob in trees:\n                print(header.format(sentence_index, log_prob), file=file)\n                print(formatter(tree), file=file)",
+  "        for sid, nbest in enumerate(nbest_trees, 1):\n            for tree, log_prob in nbest:\n                print(header.format(sid, log_prob), file=file)\n                print(formatter(tree), file=file)", ['C07'], expect='silent')
